@@ -240,6 +240,24 @@ func runC16(args []string) int {
 		{Kind: "begin"}, {Kind: "free", P: 0}, {Kind: "commit"},
 		{Kind: "begin"}, {Kind: "alloc", N: 1}, {Kind: "setfull", P: 0, Seed: 9}, {Kind: "flush"}, {Kind: "rollback"},
 	}, 77, "")
+	// directed: a file that extends beyond a lowered limit; the newest commit frees the pages at the end of the file
+	// (the file may be truncated only as far as BOTH headers allow: the older header is the fall-back)
+	for v := 0; v < 2; v++ {
+		live := 110 + 40*v
+		ops := []engine.Op{{Kind: "begin"}, {Kind: "alloc", N: live}}
+		for k := 0; k < 10; k++ {
+			ops = append(ops, engine.Op{Kind: "setfull", P: live - 1 - 3*k, Seed: 30 + k})
+		}
+		ops = append(ops, engine.Op{Kind: "setroot", P: live - 1}, engine.Op{Kind: "commit"},
+			engine.Op{Kind: "reopen", Flags: uint64(txfile.FlagUpdMaxSize), MaxSize: 64 * 1024},
+			engine.Op{Kind: "begin"}, engine.Op{Kind: "setfull", P: 2, Seed: 50}, engine.Op{Kind: "commit"}, engine.Op{Kind: "begin"})
+		for k := 0; k < 40; k++ {
+			ops = append(ops, engine.Op{Kind: "free", P: live - 1 - k})
+		}
+		ops = append(ops, engine.Op{Kind: "setroot", P: 1}, engine.Op{Kind: "commit"})
+		c16History(rep, m, engine.Config{PageSize: 1024, MaxSize: []uint64{0, 256 * 1024}[v], InitMetaArea: 4}, ops, int64(880+v), "")
+		rep.count("B:scenario/file-beyond-its-limit-frees-its-end", 1)
+	}
 	for h := 0; h < nB; h++ {
 		hseed := r.Int63()
 		hr := rand.New(rand.NewSource(hseed))
